@@ -102,6 +102,21 @@ def run(world, rep, tier, only=None):
                    "ftruncate is under the st_size < end comparison: %s" % [T.pp(a)[:40] for t, a in lits])
     rep.floor("C17.a bypass write sites", n_bypass, 5)
 
+    # the NOCACHE arm above is sound only if the cache is empty whenever IO_FLAG_NOCACHE gets set,
+    # and the block->position mapping may change only over an empty cache
+    for fn in ufns.values():
+        if fn.name in ("unix_open_channel", "unix_open", "unixfd_open"):
+            continue    # channel not yet in use: the cache is still empty
+        inval = [n for n in calls_to(fn, "flush_cached_blocks") if arg_has_macro(n, 2, "FLUSH_INVALIDATE")]
+        for n in fn.events("S"):
+            lf = T.last_field(n.ev["lhs"])
+            if lf == ("unix_private_data", "flags") and store_sets_bits(n, "IO_FLAG_NOCACHE"):
+                rep.ob("C17.a", site(fn, "cache emptied before IO_FLAG_NOCACHE is set"), fn.dominated_by(n, inval),
+                       "`%s` is dominated by flush_cached_blocks(…FLUSH_INVALIDATE)" % n.text()[:40])
+            if lf == ("unix_private_data", "offset") and n.ev["o"] == "=":
+                rep.ob("C17.a", site(fn, "cache emptied before the offset changes"), fn.dominated_by(n, inval),
+                       "`%s` is dominated by flush_cached_blocks(…FLUSH_INVALIDATE)" % n.text()[:40])
+
     # invalidation contract of flush_cached_blocks
     fc = ufns.get("flush_cached_blocks")
     if fc is None:
